@@ -1,8 +1,10 @@
 """C09 — package envelopes (model: coq/model/Envelope.v)."""
 import copy
+import os
 
 import fw
 from fw import gN, glist, gopt, gpair, gapp, gbool, gnat
+from translators import envelope_rs
 
 LEVEL_OFFSET = 200000      # zstd levels can be negative; the model only needs "some level"
 
@@ -450,12 +452,32 @@ class C09(fw.Prop):
             "sets, pre-release and build versions; plus lowering functions) and builder-program modules through "
             "make / read (uncompressed and compressed) / readstr / damaged envelope / history; documents compared "
             "with the two set-valued requirement arrays sorted.  non-trivial = compressed, non-ASCII, empty "
-            "package, malformed input, a history, or a rich package")
+            "package, malformed input, a history, or a rich package.  Outside the case stream (extra, judged by "
+            "run.C09RustRun.rok in Coq): the constants scanned from header.rs and imported from hugr.envelope "
+            "against the model's (8 checks = the constants theorems); EnvelopeHeader.from_bytes on the documented "
+            "magic number + all 2^16 (format, flags) pairs, on every prefix of every header the documented writer "
+            "writes and on headers with a changed magic byte, against the Rust reader transcribed over the scanned "
+            "constants; EnvelopeHeader.to_bytes of every member x zstd against the documented writer")
     trusted = ["zstd (pyzstd) and pydantic's JSON text codec are oracles: inverse laws are Section hypotheses of "
                "C09_envelope_roundtrip; their answers on each case (decompress succeeds, parsed documents equal "
                "the original's) are observed by the harness and fed to the model",
                "MODULE / MODULE_WITH_EXTS cannot be encoded offline (native hugr._hugr absent); decoding them "
-               "is modelled (ValueError)"]
+               "is modelled (ValueError)",
+               "documented header as regenerated data: harness/translators/envelope_rs.py (fail-closed scanner of "
+               "hugr-core/src/envelope/header.rs; placeholders on which the theorems fail when the file has another "
+               "shape) and the hand transcription of EnvelopeHeader::read / ::write / from_repr over the scanned "
+               "constants in coq/model/EnvelopeRustM.v (the Rust side cannot be built or run here); the table "
+               "of names Model/MODULE, ModelWithExtensions/MODULE_WITH_EXTS, PackageJson/JSON is hand-written"]
+
+    # -- regenerated data: the documented header (header.rs) and the module-level constants of hugr.envelope
+    hdr = None
+
+    def regenerate(self, ctx):
+        paths, self.hdr = envelope_rs.regenerate(fw.REPO, fw.COQ)
+        return [os.path.relpath(p, fw.VERIF) for p in paths]
+
+    def extra(self, ctx, tier):
+        return header_data_checks(self, ctx)
 
     def corpus(self, ctx):
         """Minimised triggers, run first on every run."""
@@ -789,6 +811,249 @@ class C09(fw.Prop):
             ob = o.get("obs", o.get("raised", "-")) if isinstance(o, dict) else "-"
             d[key][ob] = d[key].get(ob, 0) + 1
         return d
+
+
+# ---------------------------------------------------------------------------------------------------------
+# (deepening) the documented header as regenerated data.  The verdicts come from Coq: `rok` of
+# coq/run/C09RustRun.v evaluates (RData) the boolean content of each constants theorem of props/C09.v on the
+# regenerated constants and (RRow / RHdr / RWrite) compares what hugr-py's EnvelopeHeader really does with the
+# Rust reader / writer transcribed in Gallina over the scanned constants.  Python only describes a failure
+# (which constant differs) and proposes byte strings, which Coq confirms.
+
+# position in C09RustRun.data_checks -> (theorem of props/C09.v, what it compares)
+DATA_CHECKS = [
+    ("C09_rust_magic", "magic number: header.rs MAGIC_NUMBERS vs the model's MAGIC"),
+    ("C09_rust_formats", "known formats and format bytes: enum EnvelopeFormat of header.rs vs the model's fmt_value"),
+    ("C09_rust_ascii_printable", "ASCII-printable formats: fn ascii_printable of header.rs vs the model's"),
+    ("C09_rust_flag_layout", "flags byte: base byte of EnvelopeHeader::write / zstd mask of ::read vs 0b01000000 / bit 0"),
+    ("C09_rust_header_length", "field lengths read by EnvelopeHeader::read (and the stated length) vs 8 + 1 + 1 = 10"),
+    ("C09_python_magic_is_rust", "magic number: hugr.envelope.MAGIC_NUMBERS vs header.rs"),
+    ("C09_python_formats_are_rust", "EnvelopeFormat members of hugr.envelope vs enum EnvelopeFormat of header.rs"),
+    ("C09_python_printable_are_rust", "ascii_printable() of the members of hugr.envelope.EnvelopeFormat vs header.rs"),
+]
+# the hand-written constants of coq/model/Envelope.v and the name table of coq/model/EnvelopeRustM.v, repeated
+# here ONLY to say which constant differs in a replay file (Coq decides whether one does)
+MODEL = {"magic": list(b"HUGRiHJv"), "flags_base": 64, "zstd_mask": 1, "lengths": [8, 1, 1], "header_len": 10,
+         "formats": [("MODULE", "Model", 1, False), ("MODULE_WITH_EXTS", "ModelWithExtensions", 2, False),
+                     ("JSON", "PackageJson", 63, True)]}
+
+
+def describe_constants(k, info):
+    """The differing constant(s) behind a failing data check, for the replay file."""
+    r, p = info["rust"], info["python"]
+    rf, pf = dict(r["formats"]), dict(p["formats"])
+    out = []
+    if k == 0:
+        out.append({"constant": "MAGIC_NUMBERS", "header.rs": r["magic"], "model": MODEL["magic"]})
+    elif k == 1:
+        for pn, rn, v, _ in MODEL["formats"]:
+            if rf.get(rn) != v:
+                out.append({"constant": "EnvelopeFormat::" + rn, "header.rs": rf.get(rn), "model": v})
+        for rn in rf:
+            if rn not in [x[1] for x in MODEL["formats"]]:
+                out.append({"constant": "EnvelopeFormat::" + rn, "header.rs": rf[rn], "model": None})
+    elif k == 2:
+        out.append({"constant": "ascii_printable", "header.rs": sorted(r["ascii_printable"]),
+                    "model": sorted(x[1] for x in MODEL["formats"] if x[3])})
+    elif k == 3:
+        out.append({"constant": "flags base / zstd mask", "header.rs": [r["flags_base"], r["zstd_mask"]],
+                    "model": [MODEL["flags_base"], MODEL["zstd_mask"]]})
+    elif k == 4:
+        out.append({"constant": "read lengths (magic, format, flags) / stated header length",
+                    "header.rs": [r["magic_len"], r["format_len"], r["flags_len"], r["header_len_stated"]],
+                    "model": MODEL["lengths"] + [MODEL["header_len"]]})
+    elif k == 5:
+        out.append({"constant": "MAGIC_NUMBERS", "envelope.py": p["magic"], "header.rs": r["magic"]})
+    elif k == 6:
+        for pn, rn, _, _ in MODEL["formats"]:
+            if pf.get(pn) != rf.get(rn) or pn not in pf:
+                out.append({"constant": "EnvelopeFormat.%s / EnvelopeFormat::%s" % (pn, rn),
+                            "envelope.py": pf.get(pn), "header.rs": rf.get(rn)})
+        for pn in pf:
+            if pn not in [x[0] for x in MODEL["formats"]]:
+                out.append({"constant": "EnvelopeFormat." + pn, "envelope.py": pf[pn], "header.rs": None})
+        for rn in rf:
+            if rn not in [x[1] for x in MODEL["formats"]]:
+                out.append({"constant": "EnvelopeFormat::" + rn, "envelope.py": None, "header.rs": rf[rn]})
+    elif k == 7:
+        names = {x[0]: x[1] for x in MODEL["formats"]}
+        out.append({"constant": "ascii_printable", "envelope.py": sorted(p["ascii_printable"]),
+                    "header.rs": sorted(r["ascii_printable"]),
+                    "names": {a: names.get(a) for a in p["ascii_printable"]}})
+    return out
+
+
+def py_header_obs(data):
+    """EnvelopeHeader.from_bytes of hugr-py on one byte string: (format value, zstd) | None (ValueError);
+    second component: the class name of any other exception"""
+    from hugr.envelope import EnvelopeHeader
+    try:
+        h = EnvelopeHeader.from_bytes(bytes(data))
+        return (h.format.value, bool(h.zstd)), None
+    except ValueError:
+        return None, None
+    except Exception as e:
+        return None, type(e).__name__
+
+
+def g_rhdr(data, obs, other):
+    return gapp("RHdr", gbytes(data), gopt(None if obs is None else gpair(gN(obs[0]), gbool(obs[1]))),
+                gbool(other is not None))
+
+
+def header_data_checks(P, ctx):
+    info = P.hdr
+    if info is None:
+        return []
+    rust = info["rust"]
+    failed = [("hugr-core/src/envelope/header.rs", rust.get("error")), ("hugr.envelope", info["python"].get("error"))]
+    failed = [(w, e) for w, e in failed if e]
+    if failed:
+        # fail closed: placeholders were written, the constants theorems do not hold on them
+        return [("header-scan", "the translator of the documented header failed closed on %s: %s; the constants theorems "
+                 "(C09_rust_* / C09_python_*) of coq/props/C09.v are not proved on this run" % (w, e),
+                 {"signature": "envelope:data:scan", "source": w, "error": e}) for w, e in failed]
+    ok, log = fw.coq_build(["run/C09RustRun.vo"])
+    if not ok:
+        return [("header-data", "coq/run/C09RustRun.v does not build on the regenerated constants",
+                 {"signature": "envelope:data:build", "log": log[-1500:]})]
+    from hugr.envelope import EnvelopeHeader, EnvelopeFormat
+    rmagic = bytes(rust["magic"])
+    lits, meta = [], []
+    for k in range(len(DATA_CHECKS)):
+        lits.append(gapp("RData", gnat(k)))
+        meta.append(("data", k))
+    # hugr-py's decoder on the documented magic number followed by every (format, flags) pair, row by row
+    rows = {}
+    for fb in range(256):
+        acc, nve, nother = [], 0, 0
+        for fl in range(256):
+            o, other = py_header_obs(rmagic + bytes([fb, fl]))
+            if other is not None:
+                nother += 1
+            elif o is None:
+                nve += 1
+            else:
+                acc.append((fl, o))
+        rows[fb] = acc
+        lits.append(gapp("RRow", gN(fb), glist(gpair(gN(fl), gpair(gN(v), gbool(z))) for fl, (v, z) in acc),
+                         gN(nve), gN(nother)))
+        meta.append(("row", fb))
+    # single byte strings: every prefix of every header the documented writer writes (+ 2 payload bytes), the
+    # same with one magic byte changed, and every header hugr-py writes
+    singles = []
+    for name, _ in rust["formats"]:
+        for z in (False, True):
+            w = envelope_rs.rust_write(rust, name, z) + b"{}"
+            singles += [w[:n] for n in range(len(w) + 1)]
+            for i in (0, len(rmagic) - 1):
+                singles.append(w[:i] + bytes([w[i] ^ 1]) + w[i + 1:])
+    py_written = {}
+    for pn, member in EnvelopeFormat.__members__.items():
+        for z in (False, True):
+            try:
+                wb = EnvelopeHeader(format=member, zstd=z).to_bytes()
+            except Exception as e:
+                wb = None
+                lits.append(g_rhdr(b"", None, type(e).__name__))
+                meta.append(("pywrite-raised", (pn, z, type(e).__name__)))
+            if wb is not None:
+                py_written[(pn, z)] = wb
+                singles.append(bytes(wb) + b"[]")
+    for d in singles:
+        o, other = py_header_obs(d)
+        lits.append(g_rhdr(d, o, other))
+        meta.append(("hdr", (d, o, other)))
+    # the header hugr-py writes for each format of the name table vs the documented writer
+    for pn, rn, _, _ in MODEL["formats"]:
+        for z in (False, True):
+            if (pn, z) in py_written:
+                lits.append(gapp("RWrite", pn, gbool(z), gbytes(py_written[(pn, z)])))
+                meta.append(("write", (pn, rn, z, py_written[(pn, z)])))
+    res = fw.eval_cases(ctx.work, "run.C09RustRun", lits, shard=400, checks=("rok",), tag="hdrdata", case_type="rcase")
+    failing = [meta[i] for i in res["rok"]]
+    ctx.stats["header_data"] = {
+        "scanned": {k: v for k, v in rust.items()}, "python": info["python"],
+        "coq_checks": {"constants theorems": len(DATA_CHECKS), "format-byte rows (256 flag bytes each)": 256,
+                       "single byte strings": len(singles), "written headers": len(py_written),
+                       "failing": len(failing)}}
+    if not failing:
+        return []
+
+    def doc_reader(d):
+        r = envelope_rs.rust_read(rust, bytes(d))
+        return "accepts as %s, zstd=%s" % (r[1], r[2]) if r[0] == "ok" else "rejects: " + r[1]
+
+    def py_reader(o, other):
+        if other is not None:
+            return "raises " + other
+        return "ValueError" if o is None else "accepts as format byte %d, zstd=%s" % o
+
+    # concrete byte strings on which hugr-py and the documented reader / writer differ (confirmed by Coq)
+    witnesses = []
+    cand = []
+    for kind, x in failing:
+        if kind == "row":
+            acc = dict(rows[x])
+            for fl in list(range(64, 66)) + list(range(256)):
+                d = rmagic + bytes([x, fl])
+                r = envelope_rs.rust_read(rust, d)
+                want = None if r[0] == "err" else (dict(rust["formats"])[r[1]], r[2])
+                if acc.get(fl) != want:
+                    cand.append(d)
+                    break
+            else:
+                cand.append(rmagic + bytes([x, 64]))
+    if cand:
+        cl = []
+        for d in cand:
+            o, other = py_header_obs(d)
+            cl.append((d, o, other))
+        cres = fw.eval_cases(ctx.work, "run.C09RustRun", [g_rhdr(*c) for c in cl], shard=400, checks=("rok",),
+                             tag="hdrwit", case_type="rcase")
+        for i in cres["rok"]:
+            d, o, other = cl[i]
+            witnesses.append({"bytes": list(d), "text": repr(bytes(d)), "hugr_py EnvelopeHeader.from_bytes": py_reader(o, other),
+                              "documented reader (header.rs)": doc_reader(d), "confirmed_in_coq": "run.C09RustRun.rok = false"})
+    for kind, x in failing:
+        if kind == "hdr":
+            d, o, other = x
+            witnesses.append({"bytes": list(d), "text": repr(bytes(d)), "hugr_py EnvelopeHeader.from_bytes": py_reader(o, other),
+                              "documented reader (header.rs)": doc_reader(d), "confirmed_in_coq": "run.C09RustRun.rok = false"})
+        elif kind == "write":
+            pn, rn, z, wb = x
+            try:
+                doc = list(envelope_rs.rust_write(rust, rn, z))
+            except KeyError:
+                doc = None
+            witnesses.append({"header of": "EnvelopeHeader(EnvelopeFormat.%s, zstd=%s).to_bytes()" % (pn, z),
+                              "hugr_py": list(wb), "documented writer (header.rs)": doc,
+                              "confirmed_in_coq": "run.C09RustRun.rok = false"})
+        elif kind == "pywrite-raised":
+            witnesses.append({"header of": "EnvelopeHeader(EnvelopeFormat.%s, zstd=%s).to_bytes()" % x[:2], "hugr_py": "raises " + x[2]})
+    seen_w, uniq = set(), []
+    for w in witnesses:
+        key = repr(sorted(w.items()))
+        if key not in seen_w:
+            seen_w.add(key)
+            uniq.append(w)
+    witnesses = sorted(uniq, key=lambda w: (0, len(w["bytes"])) if "bytes" in w else (1, 0))
+    out = []
+    data_failed = [x for kind, x in failing if kind == "data"]
+    for k in data_failed:
+        thm, what = DATA_CHECKS[k]
+        consts = describe_constants(k, info)
+        out.append(("header-constant", "theorem %s of coq/props/C09.v no longer holds on the regenerated constants (%s)"
+                    % (thm, what),
+                    {"signature": "envelope:data:" + thm, "theorem": thm,
+                     "failing_input": {"differing_constants": consts, "differing_headers": witnesses[:3]}}))
+    if not data_failed:
+        out.append(("header-behaviour", "hugr-py's EnvelopeHeader and the documented reader / writer (header.rs, transcribed "
+                    "over the scanned constants) differ although every constant agrees",
+                    {"signature": "envelope:documented-reader", "theorem": "C09_rust_reader_accepts_iff / C09_rust_write_is_model",
+                     "failing_input": {"differing_headers": witnesses[:5]} if witnesses else None,
+                     "failing_checks": [repr(f)[:200] for f in failing[:10]]}))
+    return out
 
 
 def ctx_bytes(n):
